@@ -503,8 +503,8 @@ func (w *world) recovery(rt *rapid.T) string {
 				st, _, _, _ := lab.Serve(w.lb, lab.Request("GET", "/burst", clientAddr(500+j), nil))
 				done <- st
 			}(j)
+			synctest.Wait() // one at a time: pick and in-flight increment are not atomic in Helios (nor need they be)
 		}
-		synctest.Wait()
 		var hosts []string
 		for k := before; k < w.fn.Arrivals(); k++ {
 			hosts = append(hosts, w.fn.HostAt(k))
